@@ -46,7 +46,7 @@ pub open spec fn spec_restore_ttl_ok(pttl: Seq<u8>, out: Seq<u8>) -> bool {
     match spec_btoi_i64(pttl) {
         Some(n) => if n >= 1 { spec_btoi_i64(out) matches Some(m) && 1 <= m <= n }
                    else if n == 0 { spec_btoi_i64(out) matches Some(m) && m >= 1 }
-                   else if n == -1 { out == seq![48u8] }
+                   else if n == -1 { out.len() == 1 && out[0] == 48u8 }
                    else { true },
         None => true,
     }
